@@ -3,7 +3,7 @@
 From Coq Require Import NArith ZArith List Bool Lia String Ascii.
 From SasLexer Require Import Gen.TokenType Gen.ErrorKind Gen.Channel Model.Base Model.Helpers Model.Numeric Model.Core Model.Buffer
      Model.Lexer3 Spec.RefLex Proofs.Generic Proofs.LexGeneric Proofs.Sorted Proofs.LexSorted Proofs.RefLexProofs Proofs.RefLexErrors Proofs.RefLexTiling Proofs.RefLexShape Proofs.RefLexRanges Proofs.RefLexCase Proofs.Tables Proofs.CaseInv
-     Proofs.OcBase Proofs.OcWhole Proofs.OcAll.
+     Proofs.Lines Proofs.LexLines Proofs.OcBase Proofs.OcWhole Proofs.OcAll.
 Import ListNotations.
 Open Scope N_scope.
 
@@ -254,4 +254,15 @@ Lemma mf_C12_macro_free_no_residue : forall (msep : bool) (src : list char),
 Proof.
   intros msep src H. pose proof (lex_is_reflex_macro_free msep src H) as G. cbv zeta in G |- *.
   destruct (reflex src) as [[T E] lit]. destruct G as (_ & _ & _ & _ & _ & _ & _ & _ & G9 & G10 & G11). auto.
+Qed.
+
+(** C04: [C04_macro_free_line_table]: the line-protocol premises of [C04_line_table] hold on every macro-free text *)
+Lemma mf_C04_macro_free_line_table : forall (msep : bool) (src : list char),
+  macro_free (body_of src) = true ->
+  let b := lr_buffer (lex (mkCfg false msep) src) in
+  b_lines b = first_line src :: starts_from 0 0 src /\ len (b_lines b) = 1 + count_nl src.
+Proof.
+  intros msep src H. cbv zeta.
+  destruct (lex_lines_macro_free msep src H) as (H1 & H2 & H3 & H4).
+  split; [exact (lex_line_table (mkCfg false msep) src H1 H2 H3 H4)|exact (lex_line_count (mkCfg false msep) src H1 H2 H3 H4)].
 Qed.
